@@ -482,6 +482,60 @@ fn readers(ctx: &Ctx) {
     });
 }
 
+
+/// the process-wide `log` level is not an input of the loader: the same bytes under level Off and under
+/// level Trace (the harness's default) give the same status and the same observation
+fn log_levels(ctx: &Ctx) {
+    let fam = "log-levels";
+    if !ctx.wants_family(fam) {
+        return;
+    }
+    let mut files: Vec<(String, Vec<u8>)> = gen::bases().into_iter().map(|(n, f)| (n.to_string(), f.encode())).collect();
+    files.push(("subject".into(), subject().encode()));
+    // chunks the library ignores, with contents a stricter reader might object to; a tags chunk in a later frame
+    for (nm, body) in [
+        ("cel-extra with the precise-bounds flag and a 0x0 size", Body::CelExtra(CelExtra { flags: 1, x: 0, y: 0, w: 0, h: 0, reserved: [0; 16] })),
+        ("cel-extra of 10 bytes", Body::Raw { ty: 0x2006, data: vec![1; 10] }),
+        ("empty cel-extra", Body::Raw { ty: 0x2006, data: vec![] }),
+        ("mask chunk of 3 bytes", Body::Raw { ty: 0x2016, data: vec![9; 3] }),
+        ("path chunk with a payload", Body::Raw { ty: 0x2017, data: vec![7; 40] }),
+        ("unknown chunk type 0x2030", Body::Raw { ty: 0x2030, data: vec![5; 12] }),
+        ("tags chunk without tags", tags(vec![])),
+        ("tags chunk with an unnamed tag", tags(vec![Tag::new("", 0, 0, 0)])),
+    ] {
+        for fi in 0..2usize {
+            let mut f = gen::b1();
+            let k = fi.min(f.frames.len() - 1);
+            f.frames[k].push(body.clone());
+            files.push((format!("b1 + {} in frame {}", nm, k), f.encode()));
+        }
+    }
+    ctx.family(fam, files.len() as u64 * 2, "bases, the C16 subject and b1 with ignorable / unknown / late chunks of unusual contents (cel-extra with a 0x0 precise size, short or empty cel-extra, mask, path, an unknown chunk type, tags chunks in a later frame), each loaded with the process-wide log level Off and with level Trace: equal status and equal observation", true);
+    let mut w = Want::all();
+    w.pal_probes = (0..20).collect();
+    for (name, b) in &files {
+        let case = || name.clone();
+        if !ctx.wants(fam, &case) {
+            continue;
+        }
+        let mut res = Vec::new();
+        for lvl in [log::LevelFilter::Off, log::LevelFilter::Trace] {
+            log::set_max_level(lvl);
+            res.push(match load(b) {
+                Loaded::Ok(f) => format!("ok:{:016x}", hash64(&observe::observe(&f, &w))),
+                Loaded::Err(e) => format!("err:{}", err_variant(&e)),
+                Loaded::Panic(m) => format!("panic:{}", sig_of(&m)),
+            });
+        }
+        log::set_max_level(log::LevelFilter::Trace);
+        ctx.eval(2);
+        ctx.outcome(hash64(&res));
+        if res[0] != res[1] {
+            ctx.violation(Violation { family: fam.into(), case: case(), sig: "depends-on-log-level".into(), detail: format!("log level Off: {} ; log level Trace: {}", res[0], res[1]), bytes: Some(b.clone()), extra: json!({}) });
+        }
+    }
+}
+
 fn schedules(ctx: &Ctx, thorough: bool) {
     if !ctx.wants_family("schedules") {
         return;
@@ -791,6 +845,7 @@ pub fn run(ctx: &Ctx) -> i32 {
     wide_histories(ctx, thorough);
     cross_load(ctx, thorough);
     readers(ctx);
+    log_levels(ctx);
     schedules(ctx, thorough);
     schedules_sync(ctx, thorough);
     free_running(ctx);
